@@ -4096,6 +4096,17 @@ Box<ITV>::generalized_affine_preimage(const Linear_Expression& lhs,
     sub_mul_assign(revised_lhs, tmp, var);
   }
   generalized_affine_image(revised_lhs, relsym, revised_rhs);
+  // The dimensions occurring in the lhs only are existentially quantified:
+  // the relation above constrains their old values, not the new ones.
+  if (!is_empty()) {
+    for (Linear_Expression::const_iterator i = lhs.begin(),
+           i_end = lhs.end(); i != i_end; ++i) {
+      const Variable var = i.variable();
+      if (revised_lhs.coefficient(var) == 0) {
+        seq[var.id()].assign(UNIVERSE);
+      }
+    }
+  }
   PPL_ASSERT(OK());
 }
 
